@@ -36,6 +36,16 @@ for b in blocks:
         shutil.rmtree(dst)
     os.makedirs(dst)
     shutil.copy(f'{src}/patch.diff', dst)
+    # the patch as delivered was written against an older HEAD: keep a version rebased onto the current one
+    wt = f'/tmp/mut/{pid}'
+    import subprocess
+    subprocess.run(['git', '-C', wt, 'reset', '-q', '--hard'])
+    if subprocess.run(['git', '-C', wt, 'apply', '--check', f'{src}/patch.diff'], capture_output=True).returncode != 0:
+        if subprocess.run(['git', '-C', wt, 'apply', '-3', f'{src}/patch.diff'], capture_output=True).returncode == 0:
+            d = subprocess.run(['git', '-C', wt, 'diff', 'HEAD'], capture_output=True, text=True).stdout
+            shutil.move(f'{dst}/patch.diff', f'{dst}/patch.as-delivered.diff')
+            open(f'{dst}/patch.diff', 'w').write(d)
+        subprocess.run(['git', '-C', wt, 'reset', '-q', '--hard'])
     for f in glob.glob(f'{src}/**/*', recursive=True):
         if os.path.isfile(f) and (f.endswith('.txt') or f.endswith('_test.go') or f.endswith('README.md')):
             shutil.copy(f, f'{dst}/' + os.path.basename(f).replace('_test.go', '_test.go.txt') if f.endswith('_test.go') else f'{dst}/' + os.path.basename(f))
@@ -50,11 +60,11 @@ for b in blocks:
             'existing_suite_with_change': suite.group(1).strip(),
             'demonstration_with_change': withp.group(1).strip()[:200],
             'demonstration_without_change': without.group(1).strip()[:200],
-            'how': 'tools/vetmutant.sh: git apply patch.diff in /tmp/mut/%s; go test -vet=off -count=1 ./...; demo copied into its package and run with and without the patch' % pid,
+            'how': 'tools/vetmutant.sh: git apply patch.diff in /tmp/mut/%s (at /repo HEAD); go test -vet=off -count=1 ./...; demo copied into its package and run with and without the patch' % pid,
         },
         'checks_run': [{'check': c, 'tier': 'quick', 'exit': int(rc), 'violations_printed': int(v), 'first': msg[:200]} for c, rc, v, msg in checks],
         'detected_by': sorted(set(detected)),
-        'applied_how': 'tools/trymutant.sh: git -C /repo apply patch.diff; ./check <id> quick; git -C /repo checkout -- .',
+        'applied_how': 'tools/runmutants_wt.sh: git apply patch.diff in the scratch worktree /tmp/mut/<id> (moved to /repo HEAD); VERIF_REPO=<worktree> ./check <id> quick; git reset --hard. Equivalent on /repo itself: tools/trymutant.sh patch.diff <id>',
     }
     json.dump(meta, open(f'{dst}/meta.json', 'w'), indent=1)
     summary.append((pid, k, 'kept', sorted(set(detected))))
